@@ -308,6 +308,9 @@ def enforce_probe(ctx, res, prop, n):
                 continue
             u, x = rng.choice(ns), rng.choice(ns)
             hist.append(("enforce", (u, x) + ((rng.choice(doms),) if domain else ())))
+            if rng.random() < 0.15:
+                # a reload that is rejected while the links are being built: the assignments in force stay the ones before it
+                hist.append(("reject", (ns[0], ns[-1]) + ((rng.choice(doms),) if domain else ())))
         for u in ns:
             for x in ns:
                 for d in doms if domain else [None]:
@@ -317,7 +320,7 @@ def enforce_probe(ctx, res, prop, n):
     for domain, ns, hist in cases:
         lines += ["#reset", "new\t" + ("domain" if domain else "plain") + "\t10"]
         for k, l in hist:
-            lines.append("\t".join([{"add": "add", "remove": "del", "enforce": "has"}[k]] + [common.enc_str(x) for x in l]))
+            lines.append("\t".join([{"add": "add", "remove": "del", "enforce": "has", "reject": "has"}[k]] + [common.enc_str(x) for x in l]))
     answers = rm_corr.run_driver("rm", lines)
     pos = 0
     for domain, ns, hist in cases:
@@ -332,6 +335,9 @@ def enforce_probe(ctx, res, prop, n):
             res.evaluations += 1
             res.count("stream:enforce")
             u, x = l[0], l[1]
+            if k == "reject":
+                _rejected_reload(casbin, e, l, domain)
+                continue
             if k in ("add", "remove"):
                 try:
                     (e.add_grouping_policy if k == "add" else e.remove_grouping_policy)(*l)
@@ -364,6 +370,43 @@ def enforce_probe(ctx, res, prop, n):
     return res
 
 
+def _rejected_reload(casbin, e, l, domain):
+    """load_policy from a store that holds the current rules, one more valid assignment and one that is too short for the
+    role definition: the reload raises while the links are being built and must leave everything as it was"""
+    from casbin import persist
+
+    cur_p = [list(r) for r in e.get_policy()]
+    cur_g = [list(r) for r in e.get_grouping_policy()]
+
+    class Bad(persist.Adapter):
+        def load_policy(self, model):
+            for r in cur_p:
+                model.model["p"]["p"].policy.append(list(r))
+            for r in cur_g + [list(l), list(l)[:1]]:
+                model.model["g"]["g"].policy.append(list(r))
+
+        def save_policy(self, model):
+            return True
+
+        def add_policy(self, sec, ptype, rule):
+            pass
+
+        def remove_policy(self, sec, ptype, rule):
+            pass
+
+        def remove_filtered_policy(self, sec, ptype, field_index, *field_values):
+            pass
+
+    old = e.get_adapter()
+    e.set_adapter(Bad())
+    try:
+        e.load_policy()
+    except Exception:  # noqa
+        pass
+    finally:
+        e.set_adapter(old)
+
+
 def replay_enforce(obj):
     casbin = common.use_repo()
     domain = "r.dom" in obj["model_text"]
@@ -373,6 +416,9 @@ def replay_enforce(obj):
             e.add_policy(*([x] + ([d] if domain else []) + ["res_" + x, "read"]))
     got = None
     for k, l in obj["enf_history"]:
+        if k == "reject":
+            _rejected_reload(casbin, e, tuple(l), domain)
+            continue
         if k in ("add", "remove"):
             try:
                 (e.add_grouping_policy if k == "add" else e.remove_grouping_policy)(*l)
